@@ -242,6 +242,26 @@ func FamilyAtoms(thorough bool) []Program {
 func FamilyQuantified(thorough bool) []Program {
 	var out []Program
 	inners := []Formula{mc(1), Not{mc(1)}}
+	// inner formulas that expand to several failure branches
+	multi := []Formula{
+		Or{[]Formula{And{[]Formula{mc(1), mc(2)}}, mc(3)}}, And{[]Formula{Or{[]Formula{mc(1), mc(2)}}, mc(3)}}, Not{And{[]Formula{mc(1), mc(2)}}},
+		If{C: mc(1), T: And{[]Formula{mc(2), mc(3)}}}, If{C: Or{[]Formula{mc(1), mc(2)}}, T: mc(3)}, If{C: mc(1), T: mc(2), E: mc(3)},
+	}
+	for _, in := range multi {
+		for _, q := range []Formula{Nested{P(0), in}, Quant{P(0), true, 1, in}, Quant{P(0), false, 1, in}} {
+			out = append(out, one("v", q))
+			if thorough {
+				out = append(out, one("v", Not{q}))
+			}
+		}
+	}
+	if thorough {
+		for _, sk := range FamilySkeletons(2) {
+			in := sk.Validations[0].F
+			// shift the atoms away from the traversal predicate p0
+			out = append(out, one("v", Nested{P(9), in}))
+		}
+	}
 	if thorough {
 		inners = append(inners, And{[]Formula{mc(1), mc(2)}}, Or{[]Formula{mc(1), mc(2)}}, Nested{P(1), mc(2)}, Atom{Path: P(1), Kind: "pattern", Pattern: "^a"})
 	}
@@ -473,5 +493,51 @@ func FamilyVariableIndex(ks []int) []Program {
 		fs = append(fs, Nested{P(0), And{[]Formula{Nested{P(1), And{[]Formula{mc(0)}}}}}})
 		out = append(out, one("v", And{fs}))
 	}
+	return out
+}
+
+// FamilyNestedAtoms: every documented atom below a quantifier, in positive and negative positions.
+func FamilyNestedAtoms(thorough bool) []Program {
+	var out []Program
+	for i, a := range Atoms() {
+		if !thorough && i%2 == 1 {
+			continue
+		}
+		a.Path = P(1)
+		if a.Other != nil {
+			a.Other = P(2)
+		}
+		in := And{[]Formula{a}}
+		out = append(out, one("v", Nested{P(0), in}))
+		out = append(out, one("v", Not{Nested{P(0), in}}))
+		out = append(out, one("v", Nested{P(0), Not{in}}))
+		if thorough {
+			out = append(out, one("v", Quant{P(0), true, 1, in}))
+			out = append(out, one("v", Quant{P(0), false, 1, Not{in}}))
+		}
+	}
+	return out
+}
+
+// FamilyAtomPaths: atoms applied to composite paths (sequence, alternative, inverse, @type).
+func FamilyAtomPaths(thorough bool) []Program {
+	paths := []Path{PSeq{[]Path{P(0), P(1)}}, PAlt{[]Path{P(0), P(1)}}, Pinv(0), PSeq{[]Path{P(0), PAlt{[]Path{P(1), Pinv(1)}}}}}
+	var out []Program
+	kinds := map[string]bool{"minCount": true, "maxCount": true, "exactCount": true, "pattern": true, "in": true, "containsAll": true, "minInclusive": true}
+	for _, a := range Atoms() {
+		if !kinds[a.Kind] {
+			continue
+		}
+		for j, pt := range paths {
+			if !thorough && j%2 == 1 {
+				continue
+			}
+			b := a
+			b.Path = pt
+			out = append(out, one("v", And{[]Formula{b}}))
+		}
+	}
+	out = append(out, one("v", And{[]Formula{Atom{Path: PSeq{[]Path{P(0), PType{}}}, Kind: "in", Values: []ast.Value{str(ClassIRI(0))}}}}))
+	out = append(out, one("v", And{[]Formula{Atom{Path: PType{}, Kind: "maxCount", N: 1}}}))
 	return out
 }
